@@ -200,7 +200,7 @@ fn build_partial_eq_body(
         Ok(if exprs.is_empty() {
             quote!(true)
         } else {
-            quote!(#(#exprs)&&*)
+            quote!(#((#exprs))&&*)
         })
     };
     let body = match source {
